@@ -354,7 +354,7 @@ def cases(tier, seed):
         members = [m for m in cl[inf[u].dims] if m != u and inf[m].num > 0]
         return rnd.choice(members) if members else u
 
-    pairs = covers.same_dim_pairs(seed, 40 if big else 10, positive_only=True)
+    pairs = covers.same_dim_pairs(seed, 600 if big else 10, positive_only=True)
     extra = [("percent", "ppm"), ("radian", "degree"), ("count", "percent"), ("kilometer", "inch"), ("millisecond", "hour"), ("kilowatt_hour", "electron_volt")]
     # same-dimension operators
     for op in ("add", "sub", "floordiv", "mod", "divmod", "eq", "ne", "lt", "le", "gt", "ge"):
@@ -365,16 +365,16 @@ def cases(tier, seed):
     # any-dimension operators
     cov = covers.cover()
     for op in ("mul", "truediv"):
-        for _ in range(40 if big else 10):
+        for _ in range(400 if big else 10):
             u, v = rnd.sample(cov, 2)
             out.append(Case("H03.a", f"{op}:{u},{v}", M, "h_binop", {"op": op, "u": u, "u2": alt(u), "v": v, "v2": alt(v)}))
     for op, ks in (("pow", [-3, -2, -1, 0, 1, 2, 3]), ("neg", [0]), ("abs", [0])):
         for k in ks:
-            for u in rnd.sample(cov, 6 if big else 2) + ["percent"]:
+            for u in rnd.sample(cov, min(len(cov), 40) if big else 2) + ["percent"]:
                 out.append(Case("H03.a", f"{op}{k}:{u}", M, "h_unop", {"op": op, "u": u, "u2": alt(_canon(u)), "k": k}))
     # H03.b operator forms
     for op in ("add", "sub", "mul", "truediv", "floordiv", "mod"):
-        for u, v in pairs[: (10 if big else 3)] + [("percent", "ppm")]:
+        for u, v in pairs[: (60 if big else 3)] + [("percent", "ppm")]:
             for form in ("inplace-scalar", "inplace-array", "array-array", "inplace-array-array"):
                 out.append(Case("H03.b", f"{form}:{op}:{u},{v}", M, "h_forms", {"op": op, "u": u, "v": v, "form": form}, weight=2.0, opts={"query_timeout_ms": 20000}))
         for u in ("percent", "ppm", "degree", "radian", "dimensionless") + (("count", "turn", "millimeter/meter") if big else ()):
@@ -400,7 +400,7 @@ def cases(tier, seed):
             for side in ("right", "left"):
                 out.append(Case("H03.c", f"{op}-number:{u}:{side}", M, "h_bare_number", {"op": op, "u": u, "side": side}))
     for op in ("add", "sub", "lt", "ge", "floordiv", "mod"):
-        for u, v in covers.cross_dim_pairs(seed, 12 if big else 4):
+        for u, v in covers.cross_dim_pairs(seed, 200 if big else 4):
             out.append(Case("H03.c", f"{op}-cross:{u},{v}", M, "h_cross_dimension", {"op": op, "u": u, "v": v}))
     return out
 
